@@ -373,7 +373,15 @@ func c20FaultLeak(c *run.Ctx) {
 			st0.w.Store.Tap = func(cl world.Call) { recorded = append(recorded, cl) }
 			fl.fire(st0)
 			st0.w.Store.Tap = nil
-			for k := range recorded {
+			for kk := 0; kk < 2*len(recorded); kk++ {
+				k, fkind := kk%len(recorded), "generic"
+				if kk >= len(recorded) {
+					// the store's own way of saying "conflict, try again": whatever the handler makes of it, the response names an error code
+					fkind = "serialization"
+					if !recorded[k].Write {
+						continue
+					}
+				}
 				st, ok := mk()
 				if !ok {
 					break
@@ -383,7 +391,7 @@ func c20FaultLeak(c *run.Ctx) {
 					i := n
 					n++
 					if i == k {
-						return faultErr("generic")
+						return faultErr(fkind)
 					}
 					return nil
 				}
@@ -412,7 +420,7 @@ func c20FaultLeak(c *run.Ctx) {
 				c.Case(fmt.Sprintf("storage-fault-text flow=%s db=%v call=%s leaked=%v", fl.name, db, recorded[k].Method, len(leaked) > 0))
 				c.Count("c20_fault_responses_scanned", 1)
 				if len(unrecognisable) > 0 {
-					c.Violate(run.Violation{Kind: "error-code-not-rfc", Key: fmt.Sprintf("error-code-not-rfc storage failure flow=%s call=%s", fl.name, recorded[k].Method),
+					c.Violate(run.Violation{Kind: "error-code-not-rfc", Key: fmt.Sprintf("error-code-not-rfc storage failure (%s) flow=%s call=%s", fkind, fl.name, recorded[k].Method),
 						Detail: "the error response names no error code of the protocol but the catch-all \"error\": " + unrecognisable[0]})
 				}
 				if len(leaked) > 0 {
